@@ -47,6 +47,28 @@ def mode? : SX → Option LiteralMode
   | .atom "all" => some .all
   | _ => none
 
+/-- `(v repr)` -/
+def valRepr? : SX → Option (JVal × List Char)
+  | .list [v, r] => match jval? v, r.str? with
+    | some v, some r => some (v, r)
+    | _, _ => none
+  | _ => none
+
+/-- `(alias|none s (v repr))` or `(alias|none l (v repr) (v repr) …)` -/
+def step? (enumName : List Char) (ms : List Member) : SX → Option Step
+  | .list [a, .atom "s", vr] => match optStr? a, valRepr? vr with
+    | some a, some (v, r) => some ⟨enumName, ms, a, .scalar v r⟩
+    | _, _ => none
+  | .list (a :: .atom "l" :: vrs) => match optStr? a, vrs.mapM valRepr? with
+    | some a, some vs => some ⟨enumName, ms, a, .list vs⟩
+    | _, _ => none
+  | _ => none
+
+def encText : Text → String
+  | .unchanged => "u"
+  | .one t => "one " ++ encodeStr t
+  | .many ts => "many " ++ " ".intercalate (ts.map encodeStr)
+
 def handlers : List (String × Handler) := [
   -- enum.parse cfg ty (values) (varnames) → ok <nullable> name default name default …
   ("enum.parse", fun
@@ -91,6 +113,20 @@ def handlers : List (String × Handler) := [
         | .outOfFuel => "fuel"
         | .error => "error"
       | _, _, _, _ => "err args"
+    | _ => "err args"),
+  -- enum.setdefaults cfg ty (values) (varnames) enumName (step …) → text | text | …   (runSteps from the empty heap,
+  -- every default rendered in the final heap)
+  ("enum.setdefaults", fun
+    | [c, ty, vs, vn, en, .list steps] => match cfg? c, obj? ty vs vn, en.str? with
+      | some c, some o, some en => match parseEnum pyEnv c o with
+        | .ok (ms, _) => match steps.mapM (step? en ms) with
+          | some ss =>
+            let r := runSteps [] ss
+            " | ".intercalate ((r.2.map (renderOut r.1)).map encText)
+          | none => "err args"
+        | .outOfFuel => "fuel"
+        | .error => "error"
+      | _, _, _ => "err args"
     | _ => "err args"),
   ("enum.literal", fun
     | [m, ty, vs] => match mode? m, obj? ty vs (.list []) with
